@@ -9,7 +9,7 @@ from .. import common as C
 from . import _sched as S
 
 PROP = "C02"
-GEN_REGIONS: List[str] = []
+GEN_REGIONS: List[str] = ["Sched", "Utils"]
 THEOREMS = {
     "SpecKitV.Lemmas.Starts": ["roundHalfUp_eq", "capK_le", "capK_ge_one", "nsegRaw_ge_one", "nsegRaw_eq", "startsEven_one", "startsAccum_one",
                                "startsEven_safe", "startsAccum_safe", "startsEven_uncapped_collide"],
